@@ -31,7 +31,7 @@ META = {
 
 CASES_Q = [
     # estimator, norm, relin, per_unit, idx, ssm, lin, order, q, d, signcase
-    ("res", "scale_rms", "cached", 0, 0, "dense", "ts0", 1, 1, 2, "pp>"),
+    ("res", "scale_rms", "cached", 0, 0, "dense", "ts0", 1, 1, 1, "pp>"),
     ("res", "scale_rms", "cached", 0, 0, "isotropic", "ts0", 1, 1, 2, "pp<"),
     ("res", "scale_rms", "cached", 0, 0, "blockdiag", "ts0", 1, 1, 2, "pn>"),
     ("res", "scale_rms", "relin", 0, 0, "dense", "ts1", 1, 1, 1, "pp<"),
@@ -52,6 +52,7 @@ CASES_Q = [
 def cases(tier):
     out = ["/".join(map(str, c)) for c in CASES_Q]
     if tier == "thorough":
+        out.append("res/scale_rms/cached/0/0/dense/ts0/1/1/2/pp>")      # dense d=2, per-dimension scales: minutes
         for c in CASES_Q[:6]:
             for sgn in ("pp>", "pn>", "np<", "nn<"):
                 out.append("/".join(map(str, c[:-1] + (sgn,))))
